@@ -122,7 +122,7 @@ def _random_md(rng, nmax):
     n = rng.randint(1, nmax)
     names = rng.sample(range(10), n)
     dens = rng.choice([0.15, 0.3, 0.5])
-    style = rng.choice(["any", "named", "dag", "twocycles"])
+    style = rng.choice(["any", "any", "named", "dag"])
     tables = []
     for i, a in enumerate(names):
         fks = []
@@ -172,14 +172,16 @@ def gen_cases(rng, tier):
                     if rng.random() < 0.25:
                         cases.append(_case(2, _mk(order, g, pats[2]), kind))
                     continue
-                cases.append(_case(0, _mk(order, g, pats[2 if oi else 1]), kind))
-                cases.append(_case(1, _mk(order, g, pats[0]), kind))
-                cases.append(_case(1, _mk(order, g, pats[2]), kind))
                 if oi == 0:
+                    cases.append(_case(0, _mk(order, g, pats[2]), kind))
+                    cases.append(_case(1, _mk(order, g, pats[0]), kind))
                     cases.append(_case(2, _mk(order, g, pats[1]), kind))
                 else:
-                    cases.append(_case(2, _mk(order, g, pats[2]), kind))
-    nrand = 6000 if tier == "thorough" else 1200
+                    cases.append(_case(0, _mk(order, g, pats[1]), kind))
+                    cases.append(_case(1, _mk(order, g, pats[2]), kind))
+                    if rng.random() < 0.3:
+                        cases.append(_case(2, _mk(order, g, pats[2]), kind))
+    nrand = 6000 if tier == "thorough" else 1000
     for _ in range(nrand):
         tables = _random_md(rng, 7)
         op = rng.choice([0, 0, 1, 1, 2])
